@@ -142,8 +142,8 @@ pub fn run(ctx: &Ctx) {
     let n = seq_count(8, l);
     indexed_stage(ctx, "exhaustive", n, |i| seq_at(8, i).into_iter().map(alphabet_op).collect::<Vec<Op>>(), |ops, local| test_history(ops, local));
     ctx.extra("exhaustive_stage", json!({"alphabet": ALPHABET, "max_len": l, "sequences": n, "exhaustive": true}));
-    random_stage(ctx, "random", ctx.tier.pick(600, 12_000), || fault_history_strategy(20), |ops: &Vec<Op>, local| test_history(ops, local));
-    crate::props::repl_crash::run_replica_fault_stage(ctx, ctx.tier.pick(200, 4_000));
+    random_stage(ctx, "random", ctx.tier.pick(600, 50_000), || fault_history_strategy(20), |ops: &Vec<Op>, local| test_history(ops, local));
+    crate::props::repl_crash::run_replica_fault_stage(ctx, ctx.tier.pick(200, 16_000));
 }
 
 pub fn replay(case: &Value) -> Check {
